@@ -534,6 +534,7 @@ var schemaFragments = []string{
 	`"array"`, `"map"`, `"fixed"`, `"record"`, `"enum"`, `"union"`, `"long"`, `"nosuchtype"`, `""`,
 	`{"type":"array"}`, `{"type":"map"}`, `{"type":"fixed"}`, `{"type":"fixed","size":-1}`, `{"type":"fixed","size":1e9}`, `{"type":"fixed","size":9223372036854775807,"name":"x"}`,
 	`{"type":"record"}`, `{"type":"record","fields":null}`, `{"type":"record","name":"r","fields":[{"name":"a"}]}`, `{"type":"record","name":"r","fields":[{"type":"long"}]}`,
+	`["null"]`, `["null","null"]`, `["long"]`, `["string","string"]`, `["null","long","null"]`, `{"type":"array","items":["null"]}`, `{"type":"map","values":["null"]}`,
 	`{"type":"enum","symbols":[]}`, `{"type":["null","long"]}`, `{"type":{"type":"long"}}`, `[]`, `[[]]`, `["null",["null","long"]]`, `{}`, `null`, `1`, `true`, `"\ud800"`,
 	`{"type":"array","items":"array"}`, `{"type":"map","values":"map"}`, `{"type":"array","items":{"type":"array","items":"fixed"}}`,
 	`{"type":"long","logicalType":5}`, `{"type":"long","logicalType":"timestamp-millis"}`, `{"type":"int","logicalType":"date"}`, `{"type":"string","logicalType":"date"}`,
